@@ -1,1 +1,105 @@
-"""Spec-level lemmas proved by explicit induction (base + step obligations)."""
+"""Spec-level lemmas proved by explicit induction (base + step obligations), DESIGN 4.3.
+
+Luhn (C15): the contract of validate_check_digit (rejects iff last digit != Luhn digit of the rest) is connected to the
+error-detection clauses of the statement: every single-digit substitution and every adjacent transposition of different
+digits other than 0/9 of a valid number is invalid.  All lengths: the sums are over arrays of symbolic length."""
+import z3
+from pyvc.runner import unit
+from pyvc.values import *
+from pyvc.models import SIGMA
+
+A = z3.ArraySort(z3.IntSort(), z3.IntSort())
+
+
+def g(w, x):
+    return (w * x) / 10 + (w * x) % 10
+
+
+def w_total(i):
+    """weight of the digit i places from the right in the whole number (check digit: 1)"""
+    return z3.If(i % 2 == 0, 1, 2)
+
+
+def unfold(f, n):
+    return [SIGMA(f, 0) == 0, z3.Implies(n >= 0, SIGMA(f, n + 1) == SIGMA(f, n) + z3.Select(f, n))]
+
+
+def point_update(f, q, v, n):
+    return SIGMA(z3.Store(f, q, v), n) == SIGMA(f, n) + z3.If(z3.And(q >= 0, q < n), v - z3.Select(f, q), 0)
+
+
+@unit('luhn/sum-point-update (induction)', props=['C15'], functions=[])
+def u_pu(E):
+    f = z3.Const('f', A)
+    q, v, n = z3.Ints('q v n')
+    gq = z3.Store(f, q, v)
+    for fact in unfold(f, z3.IntVal(0)) + unfold(gq, z3.IntVal(0)):
+        E.fact(fact)
+    E.prove('sum-point-update/base', point_update(f, q, v, z3.IntVal(0)), 'P', 'lemma')
+    E.assume(n >= 0)
+    for fact in unfold(f, n) + unfold(gq, n):
+        E.fact(fact)
+    E.assume(point_update(f, q, v, n))          # induction hypothesis
+    E.prove('sum-point-update/step', point_update(f, q, v, n + 1), 'P', 'lemma')
+
+
+@unit('luhn/check-digit-shift (induction)', props=['C15'], functions=[])
+def u_shift(E):
+    """total sum over the whole number = check digit + Luhn sum of the payload (weights shift by one place)"""
+    f = z3.Const('f', A)
+    c, m = z3.Ints('c m')
+    i = z3.Int('i')
+    t = z3.Lambda([i], z3.If(i == 0, c, z3.Select(f, i - 1)))
+    stmt = lambda k: SIGMA(t, k + 1) == c + SIGMA(f, k)
+    for fact in unfold(t, z3.IntVal(0)) + unfold(f, z3.IntVal(0)):
+        E.fact(fact)
+    E.prove('check-digit-shift/base', stmt(z3.IntVal(0)), 'P', 'lemma')
+    E.assume(m >= 0)
+    for fact in unfold(t, m + 1) + unfold(f, m):
+        E.fact(fact)
+    E.assume(stmt(m))
+    E.prove('check-digit-shift/step', stmt(m + 1), 'P', 'lemma')
+    E.prove('check-digit-shift/weights-line-up', z3.Implies(i >= 0, w_total(i + 1) == z3.If(i % 2 == 0, 2, 1)), 'P', 'lemma')
+
+
+@unit('luhn/valid-forms', props=['C15'], functions=[])
+def u_forms(E):
+    """last digit = (9 * LS) mod 10   iff   (LS + last digit) mod 10 = 0   (what validate_check_digit's contract says)"""
+    LS, c = z3.Ints('LS c')
+    E.assume(z3.And(c >= 0, c <= 9, LS >= 0))
+    E.prove('valid-forms', (c == (9 * LS) % 10) == ((LS + c) % 10 == 0), 'P', 'lemma')
+
+
+@unit('luhn/single-substitution-detected', props=['C15'], functions=[])
+def u_subst(E):
+    t = z3.Const('t', A)            # contribution of each digit of a valid number, indexed from the right
+    n, q, x, x2 = z3.Ints('n q x x2')
+    E.assume(z3.And(n >= 1, q >= 0, q < n))
+    E.assume(z3.And(x >= 0, x <= 9, x2 >= 0, x2 <= 9, x != x2))
+    E.assume(z3.Select(t, q) == g(w_total(q), x))
+    E.assume(SIGMA(t, n) % 10 == 0)                                   # valid
+    v = g(w_total(q), x2)
+    E.fact(point_update(t, q, v, n))                                  # lemma instance (proved above for all f, q, v, n)
+    E.prove('single-substitution/contribution-injective-mod-10', (g(w_total(q), x) - v) % 10 != 0, 'P', 'lemma')
+    E.prove('single-substitution/rejected', SIGMA(z3.Store(t, q, v), n) % 10 != 0, 'P', 'lemma')
+
+
+@unit('luhn/adjacent-transposition-detected', props=['C15'], functions=[])
+def u_transp(E):
+    t = z3.Const('t', A)
+    n, q, a, b = z3.Ints('n q a b')
+    E.assume(z3.And(n >= 2, q >= 0, q + 1 < n))
+    E.assume(z3.And(a >= 0, a <= 9, b >= 0, b <= 9, a != b))
+    E.assume(z3.Not(z3.Or(z3.And(a == 0, b == 9), z3.And(a == 9, b == 0))))
+    E.assume(z3.Select(t, q) == g(w_total(q), a))
+    E.assume(z3.Select(t, q + 1) == g(w_total(q + 1), b))
+    E.assume(SIGMA(t, n) % 10 == 0)
+    t1 = z3.Store(t, q, g(w_total(q), b))
+    t2 = z3.Store(t1, q + 1, g(w_total(q + 1), a))
+    E.fact(point_update(t, q, g(w_total(q), b), n))
+    E.fact(point_update(t1, q + 1, g(w_total(q + 1), a), n))
+    E.prove('adjacent-transposition/rejected', SIGMA(t2, n) % 10 != 0, 'P', 'lemma')
+    # and the 0/9 exception is real (the statement excludes it for a reason): witness
+    E.prove('adjacent-transposition/0-9-exception-is-the-only-one',
+            z3.Implies(z3.And(a >= 0, a <= 9, b >= 0, b <= 9, a != b, (g(2, a) + g(1, b)) % 10 == (g(2, b) + g(1, a)) % 10),
+                       z3.Or(z3.And(a == 0, b == 9), z3.And(a == 9, b == 0))), 'P', 'lemma')
